@@ -46,12 +46,38 @@ func scenarioC13(r *Run) {
 	var pool []net.Conn // accepted server-side connections not yet bound
 	silenced := map[string]bool{}
 	pol := &NetPolicy{Whole: true}
+	// short outages during a handshake: after the n-th answer to a client, everything from and to it is
+	// lost for a few seconds (keyed by the client's IP)
+	type outage struct {
+		after, seen int
+		length      time.Duration
+		until       time.Time
+	}
+	outages := map[string]*outage{}
 	pol.DgramHook = func(seq int) bool {
 		d := r.Net.PeekDgram(seq)
 		if d == nil {
 			return false
 		}
 		from, to := d.From.String(), d.To.String()
+		for ip, o := range outages {
+			if !(strings.HasPrefix(from, ip+":") || strings.HasPrefix(to, ip+":")) {
+				continue
+			}
+			if !o.until.IsZero() && time.Now().Before(o.until) {
+				r.Net.DropDgram(seq)
+				r.Count("fault_dgram_loss")
+				return true
+			}
+			if strings.HasPrefix(to, ip+":") && o.until.IsZero() {
+				o.seen++
+				if o.seen == o.after {
+					o.until = time.Now().Add(o.length)
+					r.Count("fault_handshake_outage")
+					r.Logf("outage of %v for %s after its answer #%d", o.length, ip, o.seen)
+				}
+			}
+		}
 		for ip := range silenced {
 			if strings.HasPrefix(from, ip+":") || strings.HasPrefix(to, ip+":") {
 				r.Net.DropDgram(seq)
@@ -106,6 +132,8 @@ func scenarioC13(r *Run) {
 		dc   *sdns.ClientDnsConnection
 		err  error
 		done bool
+		// a short outage was planned inside this handshake: the path was not clean
+		outage bool
 	}
 	type retiredConn struct {
 		conn net.Conn
@@ -140,6 +168,11 @@ func scenarioC13(r *Run) {
 			}
 			r.OnCleanup(func() { dc.Close() })
 			p := &pending{s: s, dc: dc}
+			delete(outages, s.ip)
+			if c.Chance(1, 2, "handshake-outage") {
+				outages[s.ip] = &outage{after: 1 + c.Pick(6, "outage-after-answer"), length: time.Duration(1500+c.Pick(3000, "outage-ms")) * time.Millisecond}
+				p.outage = true
+			}
 			pend = append(pend, p)
 			go func() {
 				p.err = dc.Handshake()
@@ -191,6 +224,31 @@ func scenarioC13(r *Run) {
 			}
 		}
 		for _, p := range pend {
+			if p.outage && p.done && p.err != nil {
+				// the path was not clean, so the handshake may legitimately have given up - but never because
+				// the server disowns a session it has just created
+				if es := p.err.Error(); strings.Contains(es, "BADCONN") || strings.Contains(es, "BADUSER") {
+					r.FailSig("live-session-terminated", sigHist()+" open="+how, "session %d, seconds old, was disowned by the server during its handshake (%v) after history %v", p.s.idx, p.err, ops)
+					return false
+				}
+				r.Count("handshake_gave_up_under_outage")
+				p.s.state = "none"
+				uid := p.dc.SimUserId()
+				p.dc.Close()
+				r.RunFor(2 * time.Second)
+				// the server may have accepted the abandoned session: it is not part of the history
+				drain()
+				kept := pool[:0]
+				for _, cn := range pool {
+					if id, ok := sdns.SimServerUserId(cn); ok && id == uid {
+						cn.Close()
+						continue
+					}
+					kept = append(kept, cn)
+				}
+				pool = kept
+				continue
+			}
 			if !p.done || p.err != nil {
 				r.FailSig("handshake-on-clean-path", sigHist()+" open="+how, "%s: session %d could not be opened on a clean path after history %v: %v", out, p.s.idx, ops, p.err)
 				return false
@@ -198,6 +256,9 @@ func scenarioC13(r *Run) {
 		}
 		drain()
 		for _, p := range pend {
+			if p.err != nil {
+				continue
+			}
 			s := p.s
 			s.dc = p.dc
 			s.srv = nil
@@ -212,7 +273,7 @@ func scenarioC13(r *Run) {
 				}
 			}
 			if s.srv == nil {
-				r.Fail("world-setup", "no accepted server connection with id %d", s.uid)
+				r.FailSig("live-session-terminated", sigHist()+" open="+how, "the client's handshake for session %d succeeded with identifier %d, but the server has no accepted connection with that identifier (history %v)", s.idx, s.uid, ops)
 				return false
 			}
 			keyC, keyS := AppKey(r.Seed, 10*s.idx+s.gen), TargetKey(r.Seed, s.idx, s.gen)
@@ -410,6 +471,16 @@ func scenarioC13(r *Run) {
 			name := "open"
 			for _, o := range batch {
 				name += fmt.Sprint(o.idx)
+			}
+			if c.Chance(1, 2, "align-with-prune-tick") {
+				// the server prunes stale sessions once a minute: open just before a tick
+				el := r.SimElapsed()
+				next := (el/time.Minute + 1) * time.Minute
+				if wait := next - el - time.Duration(200+c.Pick(2800, "before-tick-ms"))*time.Millisecond; wait > 0 {
+					r.RunFor(wait)
+				}
+				name += "@tick"
+				r.Count("opens_aligned_with_prune_tick")
 			}
 			ops = append(ops, name)
 			if !openMany(batch) {
